@@ -376,7 +376,20 @@ func Main(m *testing.M, property string) {
 	if EnvHook != nil {
 		EnvHook()
 	}
-	code := m.Run()
+	finish(m.Run())
+}
+
+// Fatal records a violation like Failure and then ends the process at once (replay file and evidence are written, exit code 1):
+// for failures that leave the process unusable - a deadlock on process-wide locks of the library, say - where neither shrinking
+// nor any later case could run. Returns normally only when the fingerprint is an open known finding.
+func Fatal(check, fingerprint, msg string, replayCase any) {
+	if Failure(check, fingerprint, msg, replayCase) {
+		fmt.Fprintf(realStdout, "--- FAIL: %s: %s (process ended at once: it cannot go on after this failure)\n", check, msg)
+		finish(1)
+	}
+}
+
+func finish(code int) {
 	mu.Lock()
 	writeReplays()
 	out.WallS = time.Since(started).Seconds()
